@@ -43,8 +43,8 @@ def lead_trivia(frag: str) -> bool:
 
 def join_lines(frag: str):
     """`join`: the fragment lives inside one logical line of a simple statement, so its bare newlines (bracket depth
-    0) are joined with backslashes.  No position changes.  None if impossible (comment before such a newline, or the
-    fragment does not tokenize)."""
+    0) are joined with backslashes; a comment that ends such a line is removed (it would hide the continuation; nothing
+    follows a comment on its line, so no position changes).  None if the fragment does not tokenize."""
     if '\n' not in frag:
         return frag
     toks = _toks(frag)
@@ -54,6 +54,7 @@ def join_lines(frag: str):
     depth = 0
     prev = None
     add = set()
+    cut = {}
     for t in toks:
         if t.type == tokenize.OP:
             if t.string in OPEN:
@@ -62,11 +63,13 @@ def join_lines(frag: str):
                 depth -= 1
         elif t.type in (tokenize.NL, tokenize.NEWLINE) and t.string == '\n' and depth <= 0:
             if prev is not None and prev.type == tokenize.COMMENT and prev.start[0] == t.start[0]:
-                return None
+                cut[t.start[0]] = prev.start[1]
             add.add(t.start[0])
         prev = t
     for ln in add:
         if ln - 1 < len(lines) - 1:  # a newline follows this line inside the fragment
+            if ln in cut:
+                lines[ln - 1] = lines[ln - 1][:cut[ln]]
             lines[ln - 1] += '\\'
     return '\n'.join(lines)
 
